@@ -168,6 +168,16 @@ class Number(ExcelType):
 
     blank_value = 0
 
+    def __new__(cls, value):
+        # numpy scalars (the cells of a numeric range) behave like the Python
+        # numbers; keeping them would leak numpy.bool_ out of comparisons and
+        # numpy's own arithmetic rules into the functions.
+        if isinstance(value, numpy.integer):
+            value = int(value)
+        elif isinstance(value, numpy.floating):
+            value = float(value)
+        return super().__new__(cls, value)
+
     @property
     def is_whole(self):
         return isinstance(self.value, int)
